@@ -124,7 +124,7 @@ def run(ctx):
         p = dict(pl["p"], maxtime=10 ** 6)
         jobs.append(dict(module="HealthCheck_gen", cfg_text=H.HC_GEN % p, sim=pl["num"], depth=p["len"] + 1, seed=seed(),
                          label="gen round behaviours policy=%(policy)s hasmaster=%(hasmaster)s cool=%(cool)d" % p))
-    res = H.run_jobs(ctx, jobs, parallel=4)
+    res = H.run_jobs(ctx, jobs, parallel=4 if thorough else 6)
     corner = res[n_mc - 1]
     ctx.cov["tlc_counterexample_without_corner_exception"] = corner.violated
     if not corner.violated:
